@@ -20,6 +20,19 @@ def run(tier, seed):
     programs: list = []
     klist = kset.select(rng, ["evaluate"], P["per"], P["tries"], 1, programs=programs,
                         want=lambda k: bool(exprs.sparse_only_indexes(k.asg, k.formats)))
+    # Context.is_sparse (the mechanism that lets a loop skip coordinates) is compared with spec/Structure.tla; a
+    # deviation is a NOTE, and the requests exercising it join the kernels judged below by the scale judge
+    from .. import structure_conf
+
+    sv, sr, sn = structure_conf.check_sparse(tier)
+    structure_conf.note("C16", sv, "Context.is_sparse")
+    n_witness = 0
+    for text, fm in structure_conf.witness_requests(sv, limit=80):
+        probe = kernels.compile_kernel(text, fm, ["evaluate"], [], cap=1)
+        if probe.error or not exprs.sparse_only_indexes(probe.asg, probe.formats):
+            continue
+        klist.append((kernels.compile_kernel(text, fm, ["evaluate"], programs, cap=1), "structure-witness"))
+        n_witness += 1
     cases, meta = [], {}
     cls_cache = {}
     for ki, (k, group) in enumerate(klist):
@@ -83,14 +96,11 @@ def run(tier, seed):
            "kernels": len(klist), "judged": len(judged), "not_applicable": na, "base_run_faults": inconclusive,
            "exhaustive": False,
            "binding": "the IR is the working tree's compiler output; counters are the machine's (native time is not measured)"}
-    from .. import structure_conf
-
-    sv, sr, sn = structure_conf.check_sparse(tier)
-    vio += sv
     cov["states"] += sr.distinct
     cov["transitions"] += sr.generated
     cov["is_sparse_expressions_compared"] = sn
-    cov["traces_validated_against_impl"] += sn
+    cov["is_sparse_deviations"] = len(sv)
+    cov["structure_witness_kernels"] = n_witness
     return {"violations": vio, "coverage": cov, "assumptions": _pipe.ASSUMPTIONS}
 
 
